@@ -12,6 +12,7 @@ pub fn subs() -> Vec<Sub> {
     vec![
         Sub { name: "random", run: run_random },
         Sub { name: "sweep", run: run_sweep },
+        Sub { name: "utf8", run: run_utf8 },
         Sub { name: "pairsweep", run: run_pairsweep },
         Sub { name: "lengths", run: run_lengths },
     ]
@@ -79,6 +80,43 @@ fn run_sweep(ctx: &Ctx) -> CheckResult {
         }
     }
     ctx.exhaustive("every position x every byte value 0..=255 of a valid string (with and without prefix) x 3 prefix modes");
+    Ok(())
+}
+
+/// Valid UTF-8 strings of exactly the right byte length in which one multi-byte character
+/// replaces digits: every character of `gens::UTF8_CHARS` at every byte offset of a valid string
+/// (with and without prefix) x 3 prefix modes, through all three entry points (the `&str` ones
+/// may not assume that byte offsets are character boundaries).
+fn run_utf8(ctx: &Ctx) -> CheckResult {
+    let live = Cell::new(true);
+    let st = ctx.stats("utf8", &live);
+    let strict = ctx.api.caps().strict;
+    for va in ctx.api.variants() {
+        let v = va.v();
+        let mut base = ctx.sample_values(&format!("utf8base/{}", v.name), 1, &proptest::collection::vec(any::<u8>(), v.size())).remove(0);
+        if strict {
+            base[0] %= 49;
+            base[v.ck] %= 170;
+        }
+        for with in [false, true] {
+            let s0 = vmodel::text::encode(v, &base, with);
+            for c in gens::UTF8_CHARS {
+                let c = c.as_bytes();
+                for pos in 0..=s0.len() - c.len() {
+                    let mut s = s0.clone();
+                    s[pos..pos + c.len()].copy_from_slice(c);
+                    for p in MODES {
+                        if let Err(m) = case_parse(va, &s, p, strict, &st) {
+                            return Err(ctx.violation("parse", m, json!({"variant": v.name, "text": hex(&s), "prefix": prefix_json(p)})));
+                        }
+                    }
+                    ctx.ev.borrow_mut().nontrivial_enumerated += 3;
+                }
+            }
+            st.sample(|| json!({"check": "utf8", "variant": v.name, "base": String::from_utf8_lossy(&s0), "characters": gens::UTF8_CHARS}));
+        }
+    }
+    ctx.exhaustive("every multi-byte character of a fixed list at every byte offset of a valid string (with and without prefix) x 3 prefix modes");
     Ok(())
 }
 
